@@ -38,9 +38,9 @@ CODEVARIANT = "{}"        # the variant of the transcription describing /repo to
 
 # ------------------------------------------------------------------------------------------- M
 def mc(ctx, name, rasters, sels, variant="{}", mut="none", ties="stable", expect="ok", inv=None, stats=STATS_M):
-    return ctx.model_check("ZonalStats", dict(spec="Spec", invariants=inv or INV, constants=dict(
-        Rasters=R(rasters), Selections=R(sels), STATS=R(stats), TIES=ties, VARIANT=R(variant), MUT=mut)),
-        name, expect=expect)
+    cfg = dict(spec="Spec", invariants=inv or INV, constants=dict(
+        Rasters=R(rasters), Selections=R(sels), STATS=R(stats), TIES=ties, VARIANT=R(variant), MUT=mut))
+    return U.checked_mc(ctx, "ZonalStats", cfg, name, expect)
 
 
 def model_checks(ctx):
@@ -250,15 +250,18 @@ def scope_check(ctx, jobs, n, zalpha, valpha, name):
         raise core.MachineryError("replayed enumeration %s is not the complete scope: %s" % (name, set(v.values())))
 
 
-def replay(ctx):
-    blob = json.load(open(ctx.replay))
-    cases = core.run_jobs("zonal_worker", [blob["case"]], nproc=1)
+def replay(ctx, rec):
+    """re-run exactly the recorded case through the real code and the judge"""
+    job = rec["case"] if "fn" in rec["case"] else rec["case"]["job"]
+    cases = core.run_jobs("zonal_worker", [job], nproc=1)
     U.check_worker(cases)
     fails = U.Failures(ctx)
     good = [c for c in cases if "error" not in c]
     v = ctx.judge("ZonalStats_Judge", [U.strip(c) for c in good], name="replay",
                   constants=dict(CODEVARIANT=R(CODEVARIANT)))
     handle(ctx, fails, cases, v if good else {}, "replay")
+    ctx.sample({"replayed": rec.get("clause"), "key": rec.get("key"),
+                "verdict": v.get(0) if good else cases[0].get("error")})
     print("REPLAY verdict: %s" % (v.get(0) if good else cases[0].get("error")), flush=True)
     fails.report()
 
@@ -276,8 +279,6 @@ def run(ctx):
         "DataFrame index labels are not part of the table (rows compared in order after reset_index)",
         "the dask sample requests at least one existing zone (the dask path raises otherwise, DESIGN section 3 rule 4)",
     ]
-    if ctx.replay:
-        return replay(ctx)
     if not os.environ.get("VERIF_DEV_SKIP_M"):      # development switch only
         model_checks(ctx)
     fails = U.Failures(ctx)
